@@ -286,6 +286,7 @@ fn run_bin_case(env: &Env, c: &BinCase, st: &mut Stats) -> Vec<Violation> {
     st.count("binary_runs");
     st.evaluations += 1;
     st.mark("path_toml_contracts_combinations", &format!("path={} toml={} contracts={}", c.use_path, c.use_toml, c.have_contracts));
+    st.sample(4, || json!({"args": args, "toml": if c.use_toml { Some(toml_text("./FromToml", &c.selected, &c.unknown)) } else { None }, "have_contracts_dir": c.have_contracts}));
     let case = json!({"path_style": c.path_style, "order_seed": c.order_seed, "use_path": c.use_path, "use_toml": c.use_toml, "have_contracts": c.have_contracts, "selected": c.selected, "unknown": c.unknown});
     let mixed_case = c.selected.iter().any(|(_, n)| n.chars().any(|ch| ch.is_ascii_uppercase()));
     let cats: BTreeSet<&String> = c.selected.iter().map(|(c, _)| c).collect();
